@@ -413,4 +413,99 @@ Section Tunnel.
       rewrite (v_brs _ _ _ V), (v_fdf _ _ _ V), (v_esi _ _ _ V). rewrite Hcopy, Hsl. reflexivity.
     - rewrite Hcopy, Hsl. reflexivity.
   Qed.
+
+  (* ---------- the listener on a run of messages ---------- *)
+  Definition is_msg (fd:bool) (fr:cframe) (M:list N) : Prop := exists ts b, M = msg_bytes fd fr ts b /\ 16 <= blen b.
+  Fixpoint total_len (frs:list cframe) : N := match frs with [] => 0 | fr :: r => msg_len fr + total_len r end.
+  (* the frames written for a list of frames, starting from frame state fs *)
+  Fixpoint frames_out (fd:bool) (fs:fstate) (frs:list cframe) : list (list N) :=
+    match frs with [] => [] | fr :: r => render E fd (next_frame fd fs fr) :: frames_out fd (next_frame fd fs fr) r end.
+
+  Lemma sub_sub b a c : sub (sub b a) c = sub b (a + c).
+  Proof. unfold sub. rewrite skipn_skipn_plus. f_equal. lia. Qed.
+  Lemma sub_app_len (l r:list N) : sub (l ++ r) (N.of_nat (List.length l)) = r.
+  Proof. unfold sub. rewrite Nnat.Nat2N.id, skipn_app, skipn_all, Nat.sub_diag. reflexivity. Qed.
+
+  Lemma lloop_run fd pdu proc msg_length : blen pdu = 1500 -> proc + msg_length <= 1500 ->
+    forall frs Ms rest fuel mpb fs acc, Forall2 (is_msg fd) frs Ms -> Forall (frame_ok fd) frs -> Forall sff_ok frs ->
+    sub pdu (proc + mpb) = List.concat Ms ++ rest -> mpb + total_len frs = msg_length -> List.length (fs_data fs) = 64%nat ->
+    (List.length frs < fuel)%nat ->
+    lloop LD ST E fuel pdu fd proc msg_length mpb fs acc = (XHandled, rev acc ++ frames_out fd fs frs).
+  Proof.
+    intros Hlen Hfit. induction frs as [|fr frs IH]; intros Ms rest fuel mpb fs acc HM Hok Hsff Hsub Htot Hd Hfuel.
+    - destruct fuel as [|k]; [cbn in Hfuel; lia|]. cbn [lloop total_len frames_out] in *.
+      replace (mpb <? msg_length) with false by (symmetry; apply N.ltb_ge; lia). cbn [negb]. rewrite app_nil_r. reflexivity.
+    - destruct fuel as [|k]; [cbn in Hfuel; lia|].
+      revert Htot Hfit IH. inversion HM as [|? M ? Ms' HisM HM']; subst. inversion Hok as [|? ? Hok1 Hok']; subst. inversion Hsff as [|? ? Hsff1 Hsff']; subst. intros Htot Hfit IH.
+      destruct HisM as [ts [b [HMeq Hb]]].
+      cbn [List.concat] in Hsub. rewrite <- app_assoc in Hsub. cbn [total_len] in Htot.
+      assert (V : msg_vals fd fr (sub pdu (proc + mpb))) by (rewrite Hsub, HMeq; apply msg_values; assumption).
+      rewrite (lloop_step fd pdu proc msg_length k mpb fs acc fr Hlen Hfit Hok1 Hsff1 V) by (first [lia|exact Hd]).
+      rewrite (IH Ms' rest k (mpb + msg_len fr) (next_frame fd fs fr) (render E fd (next_frame fd fs fr) :: acc) HM' Hok' Hsff').
+      + cbn [rev frames_out]. rewrite <- app_assoc. reflexivity.
+      + replace (proc + (mpb + msg_len fr)) with (proc + mpb + msg_len fr) by lia. rewrite <- sub_sub, Hsub.
+        rewrite <- (len_msg_bytes fd fr ts b Hok1 Hb), <- HMeq. apply sub_app_len.
+      + lia.
+      + cbn [next_frame fs_data]. rewrite length_upd. exact Hd.
+      + cbn [List.length] in Hfuel. lia.
+  Qed.
+
+  (* ---------- the talker: messages appended to the packet ---------- *)
+  Lemma normal_firstn' (l:list N) n : normal l -> normal (firstn n l).
+  Proof. unfold normal. intros H. apply Forall_forall. intros x Hx. rewrite Forall_forall in H. apply H. eapply In_firstn; eauto. Qed.
+  Lemma normal_skipn' (l:list N) n : normal l -> normal (skipn n l).
+  Proof. unfold normal. intros H. apply Forall_forall. intros x Hx. rewrite Forall_forall in H. apply H. eapply In_skipn; eauto. Qed.
+  Lemma normal_msg_bytes fd fr ts b : frame_ok fd fr -> normal b -> normal (msg_bytes fd fr ts b).
+  Proof.
+    intros [_ [_ Hdn]] Hn. unfold msg_bytes. apply normal_app; [|apply normal_app].
+    - apply normal_firstn'. unfold msg_hdr. apply normal_set_all. apply normal_app; [vm_compute; repeat constructor|apply normal_skipn'; exact Hn].
+    - unfold payload_of. apply normal_firstn'. exact Hdn.
+    - apply normal_repeat. lia.
+  Qed.
+
+  Lemma add_msgs_exact fd : forall frs pdu off cfl, normal pdu -> blen pdu = 1500 -> Forall (frame_ok fd) (map fst frs) ->
+    off + total_len (map fst frs) <= 1500 -> cfl <= off ->
+    exists Ms, Forall2 (is_msg fd) (map fst frs) Ms /\
+      add_msgs LD ST fd frs pdu off cfl =
+        Ok (firstn (N.to_nat off) pdu ++ List.concat Ms ++ skipn (N.to_nat (off + total_len (map fst frs))) pdu,
+            (off + total_len (map fst frs), cfl + total_len (map fst frs))).
+  Proof.
+    induction frs as [|[fr ts] frs IH]; intros pdu off cfl Hn Hlen Hok Hfit Hcfl; cbn [add_msgs map fst total_len] in *.
+    - exists []. split; [constructor|]. cbn [List.concat app]. rewrite !N.add_0_r, firstn_skipn. reflexivity.
+    - inversion Hok as [|? ? Hok1 Hok']; subst.
+      assert (Hl64 : cf_flen fr <= 64) by (destruct Hok1 as [H _]; destruct fd; lia).
+      assert (Hml : 16 <= msg_len fr <= 84) by (unfold msg_len, padof; lia).
+      unfold at_off.
+      assert (HbS : blen (sub pdu off) = 1500 - off) by (rewrite blen_sub, Hlen; reflexivity).
+      rewrite (prepare_exact fd fr ts (sub pdu off) Hok1) by (first [apply normal_skipn'; exact Hn | rewrite HbS; lia]).
+      cbn [Paths.bind fst snd].
+      set (M := msg_bytes fd fr ts (sub pdu off)).
+      assert (HML : N.of_nat (List.length M) = msg_len fr) by (apply len_msg_bytes; [exact Hok1|rewrite HbS; lia]).
+      set (pdu' := firstn (N.to_nat off) pdu ++ M ++ skipn (N.to_nat (msg_len fr)) (sub pdu off)).
+      assert (HA : List.length (firstn (N.to_nat off) pdu) = N.to_nat off) by (rewrite firstn_length; unfold blen in Hlen; lia).
+      assert (HR : skipn (N.to_nat (msg_len fr)) (sub pdu off) = skipn (N.to_nat (off + msg_len fr)) pdu).
+      { unfold sub. rewrite skipn_skipn_plus. f_equal. lia. }
+      assert (Hn' : normal pdu').
+      { unfold pdu'. apply normal_app; [apply normal_firstn'; exact Hn|]. apply normal_app; [apply normal_msg_bytes; [exact Hok1|apply normal_skipn'; exact Hn]|].
+        apply normal_skipn'. apply normal_skipn'. exact Hn. }
+      assert (Hlen' : blen pdu' = 1500).
+      { unfold pdu', blen. rewrite !app_length, HA, HR, skipn_length. unfold blen in Hlen. lia. }
+      replace ((off + msg_len fr) mod 2 ^ 16) with (off + msg_len fr) by (symmetry; apply N.mod_small; lia).
+      replace ((cfl + msg_len fr) mod 2 ^ 16) with (cfl + msg_len fr) by (symmetry; apply N.mod_small; lia).
+      destruct (IH pdu' (off + msg_len fr) (cfl + msg_len fr) Hn' Hlen' Hok') as [Ms [HMs Hrun]]; [lia|lia|].
+      exists (M :: Ms). split.
+      + constructor; [|exact HMs]. exists ts, (sub pdu off). split; [reflexivity|rewrite HbS; lia].
+      + rewrite Hrun. f_equal. f_equal; [|f_equal; lia].
+        cbn [List.concat]. rewrite <- !app_assoc.
+        assert (Hf : firstn (N.to_nat (off + msg_len fr)) pdu' = firstn (N.to_nat off) pdu ++ M).
+        { unfold pdu'. rewrite app_assoc. rewrite firstn_app.
+          replace (N.to_nat (off + msg_len fr) - List.length (firstn (N.to_nat off) pdu ++ M))%nat with 0%nat by (rewrite app_length; lia).
+          cbn [firstn]. rewrite app_nil_r. apply firstn_all2. rewrite app_length. lia. }
+        rewrite Hf. rewrite <- app_assoc. do 3 f_equal.
+        unfold pdu'. rewrite app_assoc, skipn_app.
+        rewrite skipn_all2 by (rewrite app_length; lia). cbn [app].
+        replace (N.to_nat (off + msg_len fr + total_len (map fst frs)) - List.length (firstn (N.to_nat off) pdu ++ M))%nat
+          with (N.to_nat (total_len (map fst frs))) by (rewrite app_length; lia).
+        rewrite HR, skipn_skipn_plus. f_equal. lia.
+  Qed.
 End Tunnel.
